@@ -12,6 +12,7 @@ import (
 	"sync"
 	"time"
 
+	eioparser "github.com/karagenc/socket.io-go/engine.io/parser"
 	"github.com/karagenc/socket.io-go/parser"
 	jsonparser "github.com/karagenc/socket.io-go/parser/json"
 	"github.com/karagenc/socket.io-go/parser/json/serializer/stdjson"
@@ -296,4 +297,85 @@ func (p *tapParser) Add(data []byte, finish parser.Finish) error {
 		p.w.mu.Unlock()
 		finish(h, name, decode)
 	})
+}
+
+// ---------------------------------------------------------------- raw protocol-level peer (Engine.IO client, hand-written Socket.IO frames)
+
+type rawPeer struct {
+	sock   eio.ClientSocket
+	mu     sync.Mutex
+	frames []string // received MESSAGE frames: text as is, binary as "<bin:hex>"
+	closed string   // close reason ("" while open)
+	t0     time.Time
+	at     []time.Duration
+}
+
+func (r *rig) rawPeer(transports []string) (*rawPeer, error) {
+	p := &rawPeer{t0: time.Now()}
+	cb := &eio.Callbacks{
+		OnPacket: func(packets ...*eioparser.Packet) {
+			p.mu.Lock()
+			defer p.mu.Unlock()
+			for _, pk := range packets {
+				if pk.Type != eioparser.PacketTypeMessage {
+					continue
+				}
+				if pk.IsBinary {
+					p.frames = append(p.frames, "<bin:"+hx(pk.Data)+">")
+				} else {
+					p.frames = append(p.frames, string(pk.Data))
+				}
+				p.at = append(p.at, time.Since(p.t0))
+			}
+		},
+		OnClose: func(reason eio.Reason, err error) {
+			p.mu.Lock()
+			p.closed = string(reason)
+			if p.closed == "" {
+				p.closed = "closed"
+			}
+			if err != nil {
+				p.closed += ": " + err.Error()
+			}
+			p.mu.Unlock()
+		},
+	}
+	cfg := &eio.ClientConfig{
+		Transports:    transports,
+		HTTPTransport: &http.Transport{DialContext: r.net.Dial, DisableCompression: true},
+		WebSocketDialOptions: &websocket.DialOptions{
+			HTTPClient:      &http.Client{Transport: &http.Transport{DialContext: r.net.Dial, DisableCompression: true}},
+			CompressionMode: websocket.CompressionDisabled,
+		},
+	}
+	s, err := eio.Dial("http://mem/socket.io/", cb, cfg)
+	if err != nil {
+		return nil, err
+	}
+	p.sock = s
+	return p, nil
+}
+
+func (p *rawPeer) sendText(frames ...string) {
+	pk := make([]*eioparser.Packet, len(frames))
+	for i, f := range frames {
+		pk[i] = &eioparser.Packet{Type: eioparser.PacketTypeMessage, Data: []byte(f)}
+	}
+	p.sock.Send(pk...)
+}
+
+func (p *rawPeer) sendBinary(b []byte) {
+	p.sock.Send(&eioparser.Packet{Type: eioparser.PacketTypeMessage, IsBinary: true, Data: b})
+}
+
+func (p *rawPeer) received() []string {
+	p.mu.Lock()
+	defer p.mu.Unlock()
+	return append([]string(nil), p.frames...)
+}
+
+func (p *rawPeer) closeReason() string {
+	p.mu.Lock()
+	defer p.mu.Unlock()
+	return p.closed
 }
